@@ -645,6 +645,27 @@ def main():
                 res, _ = run_reader(p, FStream(data), cfg, 12)
                 check_C01(em, data, res, cfg, "header announces %d payload bytes, the data is CRC-consistent at %d" % (L, n_))
                 em.count("crafted.otherlength")
+        # the same with the candidate's extent filled up exactly by line terminators / blanks / NULs behind the shorter CRC-consistent data
+        # (a parser that trims such bytes before checking would accept the candidate, and the reader would deliver the untrimmed bytes)
+        for L in (21, 64, 300) + tuple(rng.sample(range(8, 1000), 3 if thorough else 1)):
+            for tail in (b"\n", b"\r", b"\r\n", b"\n\n", b"\n\r", b"\r\n\r\n", b"\r\r\n", b" ", b"  ", b"\t\n", b"\x00", b"\x00\x00", b"\x00\r\n"):
+                n_ = L - len(tail)
+                hdr = bytes([0xD3, L >> 8, L & 255])
+                body = bytes([0x3e, 0xd0]) + bytes(rng.choice([x for x in range(256) if x != 0xD3]) for _ in range(n_ - 2))
+                crafted = hdr + body + gen.crc24q_ref(hdr + body).to_bytes(3, "big") + tail
+                data = good + crafted + good
+                for cfg in ((1, 0, 1, True), (1, 1, 2, True)):
+                    res, _ = run_reader(p, FStream(data), cfg, 8)
+                    check_C01(em, data, res, cfg, "header announces %d payload bytes, the data is CRC-consistent at %d and followed by %r" % (L, n_, tail))
+                # the static parser on the candidate itself: not a valid frame, must be rejected with validation on
+                em.direct_evaluations += 1
+                try:
+                    p.RTCMReader.parse(crafted, validate=1)
+                    em.violation("C01: the static parser accepts a candidate whose CRC-24Q over its full extent is wrong (CRC-consistent only %d bytes earlier, then %r)" % (len(tail), tail),
+                                 {"frame": crafted.hex(), "cfg": [1, 2, 1, True]}, {})
+                except Exception:  # noqa
+                    pass
+                em.count("crafted.otherlength_tail")
         # direct only: a valid frame F = A + B whose two halves are separated by other material -- NESTED false frames (an outer
         # damaged frame whose extent holds an inner damaged frame ending in A, then left-over bytes R), a damaged frame, foreign
         # traffic.  F is not a slice of the stream: a reader that pushes rejected bytes back, resynchronises inside frames or
@@ -712,6 +733,18 @@ def main():
                     its.append(("nmea", gen.nmea_sentence(rng), None))
             special.append((b"".join(x[1] for x in its), its))
             em.count("bigcount.streams")
+        # MSM frames at the edges of the mask sizes: satellites x signals of exactly 64 (the widest cell mask the standard allows), 63,
+        # 64 satellites, single cells, products beyond 64
+        its = []
+        for shp in gen.MSM_SHAPES:
+            for ident in rng.sample(list(tabs.M), 3 if thorough else 1):
+                b_ = gen.build(tabs, ident, rng, maskmode=shp)
+                if b_ is not None and len(b_.payload) <= 1023:
+                    built_ok.add(b_.payload)
+                    its.append(("frame", gen.frame(b_.payload), b_.payload))
+                    em.count("msmshape.%dx%d" % (shp[1], shp[2]))
+        for i_ in range(0, len(its), 6):
+            special.append((b"".join(x[1] for x in its[i_:i_ + 6]), its[i_:i_ + 6]))
         # more than a thousand consecutive foreign or filler items between two valid frames
         for kind in (("nmea", "ubx", "zero", "unknown") if thorough else ("nmea", "zero", "unknown")):
             special.append(deep_run(tabs, rng, kind, DEEP))
@@ -1296,10 +1329,18 @@ def main():
     elif prop == "C16":
         # the reader passes the label option through to every parse: several readers with different label options alive at once and
         # read in turn each keep their own option; what a reader returns equals the constructor called with that option
-        for it in range(12 if thorough else 4):
+        for it in range(16 if thorough else 6):
             data, items = mixed_stream(tabs, rng, rng.randrange(3, 7), ["msm", "msm", "msm", "frame", "nmea"], None)
             if len(data) > 12000:
                 continue
+            if it % 3 == 2:
+                # a false frame header whose length field reaches over a complete MSM frame (and fails its checksum), then the stream:
+                # whatever a reader still returns from such a stream must be labelled by the reader's own option
+                inner = [x[1] for x in items if x[0] == "frame"][:1]
+                if inner:
+                    k_ = rng.randrange(1, 9)
+                    n2 = len(inner[0]) + k_
+                    data = bytes([0xD3, n2 >> 8, n2 & 255]) + inner[0] + bytes(rng.getrandbits(8) for _ in range(k_ + 3)) + data
             n_ = len(data)
             cuts = sorted(rng.sample(range(1, n_), min(n_ - 1, 4)))
             segs = [data[a_:b_] for a_, b_ in zip([0] + cuts, cuts + [n_])]
